@@ -314,7 +314,8 @@ def cosmetic(rnd, g, ir):
 
     def deco(node):
         if isinstance(node, list):
-            return [deco(b) for b in node]
+            # union branches: primitives now and then in object form with an attribute of their own
+            return [({"type": b, "avro.java.string": "String"} if isinstance(b, str) and b in PRIMS and rnd.random() < 0.4 else deco(b)) for b in node]
         if isinstance(node, dict):
             d = {k: (deco(v) if k in ("items", "values") else v) for k, v in node.items()}
             if d.get("type") in ("record", "error"):
@@ -478,7 +479,7 @@ def run_c14(ctx, fa):
                "{md5}", "{}", "{0}", "SHA-{256}", "%s", "{algorithm}", "md5\n", "\u00e9"]
     texts = ["", "a", "\"int\"", "é", "😀", "\u0000", "a" * 300, "\U0010ffff" * 3]
     texts += _rare_crc_texts(rnd)
-    big_text = "é€" * 16000 + "a" * 40000          # > 64 KiB of UTF-8, fewer characters than bytes: digests only (see below)
+    big_text = "€" * 40000 + "a" * 10             # 120 010 bytes of UTF-8 in 40 010 characters (another number of 64 KiB blocks): digests only
     while len(texts) < n // 3:
         x = rnd.random()
         if x < 0.4:
